@@ -185,3 +185,25 @@ package fdo
 //@   pure
 //@   ensures @table err == nil ==> (alg == -7 && result0 == 10) || (alg == -35 && result0 == 11) || (alg == -257 && result0 == 1) || (alg == -258 && result0 == 5) || ((alg == -37 || alg == -38) && result0 == 6)
 //@   ensures @total (alg == -7 || alg == -35 || alg == -257 || alg == -258 || alg == -37 || alg == -38) ==> err == nil
+
+// ---- TO2 owner side (C02): nothing is served before the device proved its key ----
+// devproven: the ProveDevice token verified under the device key of the voucher
+// of this session's GUID, carries this session's nonce and names that GUID.
+//@ spec macro devproven(proofobj, ov, guid, ctx, nonceClaim, ueidClaim) = SigOk(u(proofobj), DevKeyOf(u(*ov))) && u(ov) == VoucherFor(u(guid)) && u(guid) == SessGUID(u(ctx)) && bytes(nonceClaim) == ProveDvNonceOf(u(ctx)) && len(ueidClaim) == 17 && ueidClaim[0] == 1
+//@ func fdo.TO2Server.setupDevice
+//@   props C02 C08 C10(sweep)
+//@   sweep bounds,panic,make,nilmem
+//@   callassert SetParameter#1: @proven devproven(proof.Sign1, ov, guid, ctx, nonceClaim, ueidClaim)
+//@   callassert SetParameter#1: @ueidguid forall k in 0..16: ueidClaim[1+k] == guid[k]
+//@   callassert SetParameter#1: @param u(arg1) == u(xB)
+//@   callassert SetXSession#1: @proven devproven(proof.Sign1, ov, guid, ctx, nonceClaim, ueidClaim)
+//@   callassert replacementCredential#1: @proven devproven(proof.Sign1, ov, guid, ctx, nonceClaim, ueidClaim)
+//@   callsites SetParameter 1
+//@   callsites SetXSession 1
+//@   callsites replacementCredential 1
+//@   ensures @proven ? err == nil ==> devproven(proof.Sign1, ov, guid, ctx, nonceClaim, ueidClaim)
+//@   ensures @early err == nil ==> result0 != nil
+
+//@ func fdo.TO2Server.replacementCredential
+//@   nopaths
+//@   modifies nothing
